@@ -3,6 +3,8 @@ package ratelimiter
 import (
 	"math"
 	"time"
+
+	"github.com/internetarchive/Zeno/internal/pkg/verifhook"
 )
 
 // adjustOnFailure applies real-world adjustments based on the HTTP status code.
@@ -31,6 +33,7 @@ func (tb *tokenBucket) adjustOnFailure(statusCode int) {
 	default:
 		// For non-error status codes, do nothing.
 	}
+	verifhook.RL("failure", tb, now, tb.tokens, tb.refillRate, tb.idealRate, tb.capacity, tb.penaltyUntil, tb.failureCount, statusCode)
 }
 
 // onSuccess should be called when a request succeeds.
@@ -57,4 +60,5 @@ func (tb *tokenBucket) onSuccess() {
 			tb.failureCount--
 		}
 	}
+	verifhook.RL("success", tb, now, tb.tokens, tb.refillRate, tb.idealRate, tb.capacity, tb.penaltyUntil, tb.failureCount, 0)
 }
